@@ -74,6 +74,21 @@ fn main() {
         "run" => {
             let inp = BufReader::new(std::fs::File::open(&args[3]).expect("cases"));
             let mut outp = BufWriter::new(std::fs::File::create(&args[4]).expect("obs"));
+            // VERIF_CASE_MS: a case that runs longer ends the process with exit code 3 (the records of the finished
+            // cases are on disk; the driver re-runs the unfinished case on its own and the rest in a new process)
+            let started = std::sync::Arc::new(std::sync::atomic::AtomicU64::new(0));
+            let t0 = std::time::Instant::now();
+            if let Some(ms) = std::env::var("VERIF_CASE_MS").ok().and_then(|s| s.parse::<u64>().ok()) {
+                let st = started.clone();
+                std::thread::spawn(move || loop {
+                    std::thread::sleep(std::time::Duration::from_millis(100));
+                    let s = st.load(std::sync::atomic::Ordering::SeqCst);
+                    if s > 0 && (t0.elapsed().as_millis() as u64) > s + ms {
+                        eprintln!("HANG: a case exceeded {} ms", ms);
+                        std::process::exit(3);
+                    }
+                });
+            }
             for line in inp.lines() {
                 let line = line.unwrap();
                 if line.trim().is_empty() {
@@ -81,10 +96,13 @@ fn main() {
                 }
                 let case: Value = serde_json::from_str(&line).expect("case json");
                 let mut obs = Obs::new(false);
+                started.store(t0.elapsed().as_millis() as u64 + 1, std::sync::atomic::Ordering::SeqCst);
                 run_case(engine, &case, &mut obs);
+                started.store(0, std::sync::atomic::Ordering::SeqCst);
                 for o in obs.buf {
                     writeln!(outp, "{}", o).unwrap();
                 }
+                outp.flush().unwrap();
             }
         }
         "one" => {
